@@ -94,6 +94,22 @@ def step (toks : List String) : String :=
       let t1 := tpt == "1"
       if which == "mercurius" then hxs (mercuriusJump t1 nact (fl dt) (fl m0) mv xs)
       else hxs (traceJump t1 nact (fl dt) (fl m0) mv xs)
+  | "wjump" :: coord :: nact :: dt :: m0 :: x0 :: v0 :: rest =>
+    -- rest: (m v x)* for particles 1 … N_real-1 (one component), the first `nact` of them active
+    match nact.toNat? with
+    | none => "bad-op"
+    | some nact =>
+      let rec trip2 : List Float → List (Float × Float × Float)
+        | m :: v :: x :: r => (m, v, x) :: trip2 r
+        | _ => []
+      let ts := trip2 (rest.map fl)
+      let act := ts.take nact
+      let tst := (ts.drop nact).map (fun t => t.2.2)
+      let com := whfastComStep (fl dt) (fl x0) (fl v0)
+      let r := if coord == "dh" then whfastJumpDH (fl dt) (fl m0) act tst
+               else if coord == "whds" then whfastJumpWHDS (fl dt) (fl m0) act tst
+               else (act.map (fun t => t.2.2), tst)
+      hxs (com :: (r.1 ++ r.2))
   | _ => "bad-op"
 
 def main : IO Unit := runLines step
